@@ -83,8 +83,10 @@ def explore(body, start_bb, root_is, mark_pred, init_constraints=None, max_paths
         if si is not None and si["enum"]:
             for alt in phi_alts(si["subject"]):
                 root, names = chain(alt)
-                if root_is(root):
-                    key = tuple(names)
+                tag = root_is(root)
+                if tag:
+                    # several tracked values: root_is may return a tag that keeps their constraints apart
+                    key = tuple(names) if tag is True else (tag,) + tuple(names)
                     break
         if key is None and si is not None and switch_hook is not None:
             hk = switch_hook(body, bb, si)
